@@ -10,7 +10,7 @@ from sx import vloop
 
 PROPERTY = "C18"
 BOUNDS = {
-    "quick": "(a) mapping: node,child sym [0,255], command per partition, ack sym [0,1], type sym [0,99], payload symbolic |p|<=2 (';', '/', non-ASCII allowed; no line terminator / trailing whitespace), in/out prefixes from {'', 'a', 'a/b', '/', 'mygateway1-out'}: write -> published topic/QoS/payload; echo under the in-prefix -> read -> MessageSchema.load gives the same message; every in-topic matches one of the five subscriptions (MQTT wildcard semantics); (b) MQTTClient on a fake broker client, real event loop: histories of <= 3 events in {message, undecodable payload, broker error} with the reads interleaved; connect -> disconnect at a symbolic moment; publish / subscribe / connect faults",
+    "quick": "(a) mapping: node,child sym [0,255], command per partition, ack sym [0,1], type sym [0,99], payload symbolic |p|<=2 (';', '/', non-ASCII allowed; no line terminator / trailing whitespace), in/out prefixes from {'', 'a', 'a/b', '/', 'mygateway1-out'}: write -> published topic/QoS/payload; echo under the in-prefix -> read -> MessageSchema.load gives the same message; every in-topic matches one of the five subscriptions (MQTT wildcard semantics); (b) MQTTClient on a fake broker client, real event loop: histories of <= 3 events in {message, undecodable payload, broker error} with the reads interleaved; a backlog of 1/7/150/1100 messages arriving before the first read; connect -> disconnect at a symbolic moment; publish / subscribe / connect faults",
     "thorough": "type sym [-3,100000], |p|<=3, one symbolic prefix character, histories of <= 4 events",
 }
 REALISED = ["prefixes are a class list (fully symbolic prefixes did not exhaust in the design probe)", "event histories are forked into concrete sequences"]
@@ -35,6 +35,7 @@ def partitions(tier):
     for first in range(3):
         parts.append({"name": "history-first%d" % first, "fn": "sym_history", "first": first, "steps": 3 if q else 4, "budget": 600 if q else 3000, "cost": 4})
     parts.append({"name": "lifecycle", "fn": "sym_lifecycle", "budget": 300, "cost": 2})
+    parts.append({"name": "backlog", "fn": "sym_backlog", "budget": 300, "cost": 2})
     return parts
 
 
@@ -226,6 +227,72 @@ def sym_history(inp, part):
     if res.get("disc") != "ok":
         raise Violation("disconnect-raises:%s" % res.get("disc"), "disconnect after events %r raised %s" % ([EVENTS[k] for k in kinds], res.get("disc")))
     return ["history-ok", len(kinds)]
+
+
+def sym_backlog(inp, part):
+    """The application may be slow: N broker messages arrive before the first read; all N are then read,
+    in order, exactly once, and reception is still alive afterwards."""
+    from aiomysensors.exceptions import TransportError
+
+    from harness import mqttkit
+
+    n = [1, 7, 150, 1100][inp.pick("backlog", 4)]
+    res = {}
+
+    async def main():
+        tr, restore = mqttkit.make_client(in_prefix="in", out_prefix="out")
+        try:
+            await tr.connect()
+            await asyncio.sleep(0)
+            for i in range(n):
+                tr.fake.deliver("in/1/%d/1/0/2" % (i % 250), b"v%d" % i)
+                if i % 64 == 0:
+                    await asyncio.sleep(0)
+            for _ in range(3):
+                await asyncio.sleep(0)
+            got = []
+
+            async def consume():
+                for _ in range(n + 1):
+                    got.append(await tr.read())
+
+            tr.fake.deliver("in/9/9/1/0/2", b"last")
+            task = asyncio.create_task(consume())
+            for _ in range(20 + n):
+                if task.done():
+                    break
+                await asyncio.sleep(0)
+            if not task.done():
+                task.cancel()
+                try:
+                    await task
+                except (asyncio.CancelledError, Exception):  # noqa: BLE001
+                    pass
+                res["hung"] = len(got)
+            elif task.exception() is not None:
+                res["exc"] = repr(task.exception())
+            res["got"] = got
+            try:
+                await tr.disconnect()
+            except BaseException as e:  # noqa: BLE001
+                res["disc"] = type(e).__name__
+        finally:
+            setattr(restore[0], restore[1], restore[2])
+
+    try:
+        vloop.run(main)
+    except vloop.Deadlock as e:
+        raise Violation("deadlock", str(e))
+    if "hung" in res:
+        raise Violation("silently-deaf", "%d messages were waiting; read #%d never returned" % (n + 1, res["hung"] + 1))
+    if "exc" in res:
+        raise Violation("backlog-read-raises", res["exc"])
+    want = ["1;%d;1;0;2;v%d" % (i % 250, i) for i in range(n)] + ["9;9;1;0;2;last"]
+    if res["got"] != want:
+        raise Violation("wrong-delivery", "backlog of %d: reads differ from the arrival order (first difference at %d)" % (n, next((i for i, (a, b) in enumerate(zip(res["got"], want)) if a != b), -1)))
+    if "disc" in res:
+        raise Violation("disconnect-raises:%s" % res["disc"], "disconnect after a backlog of %d raised" % n)
+    return ["history-ok", n]
 
 
 def sym_lifecycle(inp, part):
